@@ -3933,6 +3933,583 @@ def _post_stripped(f, chunks):
 
 
 # ------------------------------------------------------------------------------
+# R18.15   _parse_nodefile: the slot count of a name covers ALL its lines
+#
+def _parents(root):
+    out = {}
+    for n in walk(root, nested=True):
+        for c in ast.iter_child_nodes(n):
+            out[id(c)] = n
+    return out
+
+
+def _group_names(target):
+    """(names bound to the key, names bound to the run) by the target of an
+    iteration over itertools.groupby"""
+    if isinstance(target, (ast.Tuple, ast.List)) and len(target.elts) == 2:
+        return set(stores_of(target.elts[0])), set(stores_of(target.elts[1]))
+    return set(), set(stores_of(target))
+
+
+def run_counts(f, u):
+    """places of f at which a value computed from a run of itertools.groupby
+    over a sequence that is neither sorted nor keyed is stored under a key by
+    OVERWRITE (dict comprehension, dict() of pairs, `d[k] = <run size>`): a
+    later run of the same name replaces the count of the earlier one.
+    -> [(ast node, description)]"""
+    par = _parents(f.node)
+    bad = []
+    for c in calls_in(f.node, nested=True):
+        if call_name(c).split('.')[-1] != 'groupby' or not c.args:
+            continue
+        if kwarg(c, 'key', 1) is not None:
+            raise Unrecognised('groupby with a key function: %s' % short(c))
+        if u.sorted_seq(c.args[0], c) or u.classify(c.args[0]) == 'keyed':
+            continue
+        p = par.get(id(c))
+        while isinstance(p, ast.Call) and call_name(p) in PASS_THROUGH and \
+                call_name(p) != 'enumerate':
+            c, p = p, par.get(id(p))
+        if isinstance(p, ast.comprehension) and p.iter is c:
+            comp = par[id(p)]
+            keys, grp = _group_names(p.target)
+            if isinstance(comp, ast.DictComp):
+                if names_in_expr(comp.value) & grp:
+                    bad.append((comp, 'the dict comprehension `%s`'
+                                % short(comp, 70)))
+                continue
+            pp = par.get(id(comp))
+            if isinstance(pp, ast.Call) and call_name(pp) in KEYED_CTORS and \
+                    any(a is comp for a in pp.args) and \
+                    isinstance(comp.elt, (ast.Tuple, ast.List)) and \
+                    len(comp.elt.elts) == 2 and \
+                    names_in_expr(comp.elt.elts[1]) & grp:
+                bad.append((pp, '`%s`' % short(pp, 70)))
+            continue                   # a list of runs: decided by R18.5
+        if isinstance(p, ast.For) and p.iter is c:
+            keys, grp = _group_names(p.target)
+            derived = set(grp)
+            for _ in range(3):
+                for n in walk(p):
+                    if isinstance(n, ast.Assign) and \
+                            names_in_expr(n.value) & derived:
+                        for t in n.targets:
+                            if isinstance(t, ast.Name):
+                                derived.add(t.id)
+            for k, target, stmt in I.stores(p):
+                if k != 'assign' or not isinstance(target, ast.Subscript) or \
+                        not names_in_expr(stmt.value) & derived:
+                    continue
+                cont = unparse(target.value)
+                reads = {unparse(n) for n in walk(stmt.value)
+                         if isinstance(n, (ast.Name, ast.Attribute))}
+                if cont not in reads:
+                    bad.append((stmt, '`%s` in the loop over the runs'
+                                % short(stmt, 60)))
+            continue
+        raise Unrecognised('use of `%s`' % short(c, 60))
+    return bad
+
+
+def r18_15(prog, rep, table, rid='R18.15'):
+    rep.rule(rid, 'the slot count _parse_nodefile keeps for a node name covers '
+             'all lines of that name: a size taken from a run of '
+             'itertools.groupby over lines which are neither sorted nor keyed '
+             'is accumulated per name, never stored by overwrite', minimum=1)
+    base = prog.cls(*RM)
+    funcs = {}
+    for K in [base] + sorted(table.values(), key=lambda k: k.where):
+        f = prog.find_method(K, '_parse_nodefile')
+        if f is not None:
+            funcs[f.where] = f
+    if not funcs:
+        raise AnalysisError('anchor ResourceManager._parse_nodefile not found')
+    for where, f in sorted(funcs.items()):
+        rep.saw(f)
+        try:
+            bad = run_counts(f, Uniq(f))
+        except Unrecognised as e:
+            raise AnalysisError('UNRECOGNISED-IDIOM %s: cannot tell how the '
+                                'runs of itertools.groupby are counted (%s)'
+                                % (f.where, e))
+        if not bad:
+            rep.ok(rid, f, 'no per-name count is the size of a single run of '
+                   'adjacent lines', f.loc())
+        for node, text in bad:
+            rep.bad(rid, f, 'runcount', '%s stores the size of a run of '
+                    'ADJACENT equal lines (itertools.groupby over the unsorted '
+                    'lines of the node file) under the node name by overwrite '
+                    '(%s): when the lines of a host are not contiguous, the '
+                    'last run replaces the earlier ones and the host is '
+                    'offered with too few cores; cores_per_node is derived '
+                    'from that count' % (f.qual, text), f.loc(node),
+                    history='Torque / CCM / LSF node file with cyclic slot '
+                    'order tn01 tn02 tn03 repeated 4 times (no cpn '
+                    'override): every node gets 1 core instead of 4, '
+                    'cores_per_node is 1')
+
+
+# ------------------------------------------------------------------------------
+# R18.16   _filter_nodes: a probed node is kept only when its probe returned 0
+#
+# The outcome of the `ssh <node> hostname` probe is <proc>.retcode: None (the
+# process has not finished: the node hangs), 0 (answered) or non-zero (refused
+# / killed).  One iteration of the loop which fills the list of accessible
+# nodes is explored with the set of outcomes still possible as state: tests on
+# the outcome refine it along their T / F edges, a call on the process
+# (wait / cancel) makes every outcome possible again.
+#
+OUTCOME = 'retcode'
+_N, _Z, _P = 'None', '0', 'non-zero'
+_ALL = frozenset((_N, _Z, _P))
+_UNK = object()
+
+
+def _oc_eval(e, v, is_rc):
+    """value of expression e when the outcome is v: a python constant for a
+    known value, _P for 'some non-zero int', _UNK"""
+    if is_rc(e):
+        return {_N: None, _Z: 0, _P: _P}[v]
+    if isinstance(e, ast.Constant):
+        return e.value
+    if isinstance(e, ast.UnaryOp) and isinstance(e.op, ast.Not):
+        t = _oc_truth(e.operand, v, is_rc)
+        return _UNK if t is None else not t
+    if isinstance(e, ast.BoolOp):
+        ts = [_oc_truth(x, v, is_rc) for x in e.values]
+        if isinstance(e.op, ast.And):
+            return False if any(t is False for t in ts) else \
+                True if all(t is True for t in ts) else _UNK
+        return True if any(t is True for t in ts) else \
+            False if all(t is False for t in ts) else _UNK
+    if isinstance(e, ast.Call) and call_name(e) == 'bool' and \
+            len(e.args) == 1 and not e.keywords:
+        t = _oc_truth(e.args[0], v, is_rc)
+        return _UNK if t is None else t
+    if isinstance(e, ast.Compare) and len(e.ops) == 1:
+        op = e.ops[0]
+        l = _oc_eval(e.left, v, is_rc)
+        r = _oc_eval(e.comparators[0], v, is_rc)
+        if isinstance(op, (ast.In, ast.NotIn)) and \
+                isinstance(e.comparators[0], (ast.Tuple, ast.List, ast.Set)):
+            rs = [_oc_eval(x, v, is_rc) for x in e.comparators[0].elts]
+            if l is _UNK or any(x is _UNK or x is _P for x in rs):
+                return _UNK
+            if l is _P:
+                if any(isinstance(x, int) and not isinstance(x, bool) and x
+                       for x in rs):
+                    return _UNK
+                res = False
+            else:
+                res = any(x is l if l is None else
+                          x is not None and x == l for x in rs)
+            return res if isinstance(op, ast.In) else not res
+        if l is _UNK or r is _UNK:
+            return _UNK
+        if isinstance(op, (ast.Is, ast.IsNot, ast.Eq, ast.NotEq)):
+            pos = isinstance(op, (ast.Is, ast.Eq))
+            if l is _P or r is _P:
+                o = r if l is _P else l
+                if o is _P:
+                    return _UNK
+                if o is None or isinstance(o, (int, float)) and o == 0 or \
+                        not isinstance(o, (int, float)):
+                    return not pos
+                return _UNK
+            if isinstance(op, (ast.Is, ast.IsNot)) and \
+                    l is not None and r is not None:
+                return _UNK
+            return (l == r) == pos
+        return _UNK
+    return _UNK
+
+
+def _oc_truth(e, v, is_rc):
+    x = _oc_eval(e, v, is_rc)
+    if x is _UNK:
+        return None
+    return True if x is _P else bool(x)
+
+
+def probe_loops(f, g, smap):
+    """[(list name, for-head cfg node, [append cfg nodes])]: lists assigned to
+    <rm_info>.node_list which are filled in a loop whose body reads
+    <x>.retcode"""
+    out = []
+    names = set()
+    for kind, stmt in node_list_writes(f):
+        if kind == 'assign' and isinstance(stmt, ast.Assign) and \
+                isinstance(stmt.value, ast.Name):
+            names.add(stmt.value.id)
+    for name in sorted(names):
+        per = {}
+        for c in calls_in(f.node):
+            if isinstance(c.func, ast.Attribute) and \
+                    c.func.attr in ('append', 'add', 'insert') and \
+                    isinstance(c.func.value, ast.Name) and \
+                    c.func.value.id == name and id(c) in smap:
+                sn = smap[id(c)]
+                heads = [h for h in sn.loops if g.nodes[h].kind == 'for']
+                if heads:
+                    per.setdefault(heads[0], []).append(sn)
+        for h, sites in sorted(per.items()):
+            if any(isinstance(n, ast.Attribute) and n.attr == OUTCOME
+                   for n in walk(g.nodes[h].ast)):
+                out.append((name, g.nodes[h], sites))
+    return out
+
+
+def probe_comps(f):
+    """[(list name, comprehension)]: lists assigned to <rm_info>.node_list
+    which are a filtered comprehension reading <x>.retcode"""
+    out = []
+    names = set()
+    for kind, stmt in node_list_writes(f):
+        if kind == 'assign' and isinstance(stmt, ast.Assign) and \
+                isinstance(stmt.value, ast.Name):
+            names.add(stmt.value.id)
+    for a in walk(f.node):
+        if isinstance(a, ast.Assign) and len(a.targets) == 1 and \
+                isinstance(a.targets[0], ast.Name) and \
+                a.targets[0].id in names and \
+                isinstance(a.value, ast.ListComp) and \
+                len(a.value.generators) == 1 and any(
+                    isinstance(n, ast.Attribute) and n.attr == OUTCOME
+                    for n in walk(a.value, nested=True)):
+            out.append((a.targets[0].id, a.value))
+    return out
+
+
+def r18_16(prog, rep, rid='R18.16'):
+    from ..flow import reaching_defs, loop_slice, Exploration
+    rep.rule(rid, '_filter_nodes keeps a probed node only on paths on which '
+             'its `ssh <node> hostname` process is known to have returned 0: '
+             'the tests on <proc>.retcode between the last wait() and the '
+             'append, evaluated for None / 0 / non-zero, exclude the hanging '
+             '(None) and the refusing (non-zero) node', minimum=1)
+    f = prog.method(RM[0], RM[1], '_filter_nodes')
+    rep.saw(f)
+    g = cfg_of(f)
+    smap = I.stmt_node_map(g)
+    loops = probe_loops(f, g, smap)
+    for name, head, sites in loops:
+        body = g.loop_body[head.id]
+        procs = {n.value.id for n in walk(head.ast)
+                 if isinstance(n, ast.Attribute) and n.attr == OUTCOME and
+                 isinstance(n.value, ast.Name)}
+        if len(procs) != 1:
+            raise AnalysisError('UNRECOGNISED-IDIOM %s: the probe outcome is '
+                                'read from %s' % (f.where, sorted(procs) or
+                                                  'no plain name'))
+        proc = procs.pop()
+        resets = set()
+        for nid in body:
+            n = g.nodes[nid]
+            if n.kind != 'stmt' or n.ast is None:
+                continue
+            for c in calls_in(n.ast):
+                if isinstance(c.func, ast.Attribute) and \
+                        isinstance(c.func.value, ast.Name) and \
+                        c.func.value.id == proc or any(
+                            isinstance(a, ast.Name) and a.id == proc
+                            for a in list(c.args) +
+                            [k.value for k in c.keywords]):
+                    resets.add(nid)
+
+        def rc_at(at):
+            def is_rc(e):
+                if isinstance(e, ast.Attribute) and e.attr == OUTCOME and \
+                        isinstance(e.value, ast.Name) and e.value.id == proc:
+                    return True
+                if isinstance(e, ast.Name):
+                    defs = reaching_defs(g, e.id, at)
+                    if len(defs) == 1 and defs[0][1] is not None and \
+                            isinstance(defs[0][1], ast.Attribute) and \
+                            defs[0][1].attr == OUTCOME and \
+                            isinstance(defs[0][1].value, ast.Name) and \
+                            defs[0][1].value.id == proc:
+                        d = defs[0][0].id
+                        for r in resets:
+                            if r in g.reachable(d, skip_nodes={head.id}) and \
+                                    at in g.reachable(r, skip_nodes={head.id}):
+                                raise AnalysisError(
+                                    'UNRECOGNISED-IDIOM %s: `%s` holds the '
+                                    'outcome read before `%s` and is tested '
+                                    'after it' % (f.where, e.id,
+                                                  short(g.nodes[r].ast, 40)))
+                        return True
+                return False
+            return is_rc
+
+        # every test of the body which looks at the process must be decidable
+        refine = {}
+        for nid in body:
+            n = g.nodes[nid]
+            if n.kind != 'test':
+                continue
+            is_rc = rc_at(nid)
+            about = proc in names_in_expr(n.ast) or any(
+                isinstance(x, ast.Name) and is_rc(x) for x in walk(n.ast))
+            if not about:
+                continue
+            tv = {v: _oc_truth(n.ast, v, is_rc) for v in _ALL}
+            if any(t is None for t in tv.values()):
+                raise AnalysisError('UNRECOGNISED-IDIOM %s: cannot evaluate '
+                                    'the test `%s` for the outcomes None / 0 /'
+                                    ' non-zero of the probe'
+                                    % (f.where, short(n.ast, 60)))
+            refine[nid] = tv
+        site_ids = {sn.id for sn in sites}
+        seen = {}
+
+        def transfer(node, edge, st):
+            if node.id in site_ids:
+                seen.setdefault(node.id, set()).update(st)
+            if edge.label == 'exc':
+                return st
+            if node.id in resets:
+                return _ALL
+            if node.id in refine and edge.label in 'TF':
+                want = edge.label == 'T'
+                st = frozenset(v for v in st if refine[node.id][v] is want)
+                return st or None
+            return st
+
+        start, stop, stop_edge = loop_slice(g, head.id)
+        Exploration(g, start, _ALL, transfer, stop=stop, stop_edge=stop_edge)
+        for sn in sites:
+            got = seen.get(sn.id, set())
+            if not got:
+                raise AnalysisError('UNRECOGNISED-IDIOM %s: `%s` is not '
+                                    'reached within one iteration'
+                                    % (f.where, short(sn.ast, 50)))
+            wrong = sorted(got - {_Z})
+            what = {_N: 'is still None (the ssh process hangs and survived '
+                        'cancel(): the node does not answer)',
+                    _P: 'is non-zero (ssh refused or was killed)'}
+            rep.check(not wrong, rid, f, '`%s` is reached only with %s.%s == 0'
+                      % (short(sn.ast, 40), proc, OUTCOME),
+                      construct='probe:%s' % '/'.join(wrong),
+                      message='%s reaches `%s` on a path on which %s.%s %s: '
+                      'the tests between the last call on the process and the '
+                      'append do not exclude that outcome (`not None` is '
+                      'true), so a node which failed the accessibility check '
+                      'is kept in %s, becomes rm_info.node_list and is '
+                      'offered for task placement'
+                      % (f.qual, short(sn.ast, 50), proc, OUTCOME,
+                         ' or '.join(what[w] for w in wrong), name),
+                      loc=f.loc(sn.ast),
+                      history='pilot with backup_nodes > 0 on 5 nodes; the '
+                      'probe of node 2 %s: node 2 stays in the node list and '
+                      'gets tasks' % ('hangs, is cancelled and hangs again '
+                                      '(retcode None after the second wait)'
+                                      if _N in wrong else 'returns 255'))
+            rep.check(_Z in got, rid, f, '`%s` is reached for an answering '
+                      'node' % short(sn.ast, 40), construct='probe:never',
+                      message='%s never reaches `%s` with %s.%s == 0: no '
+                      'answering node is kept, the pilot ends with "no '
+                      'accessible nodes found"' % (f.qual, short(sn.ast, 50),
+                                                   proc, OUTCOME),
+                      loc=f.loc(sn.ast), history='any pilot with backup '
+                      'nodes')
+    comps = probe_comps(f)
+    for name, comp in comps:
+        gen = comp.generators[0]
+
+        def is_rc(e):
+            return isinstance(e, ast.Attribute) and e.attr == OUTCOME and \
+                isinstance(e.value, ast.Name) and \
+                e.value.id in stores_of(gen.target)
+        tv = {}
+        for v in _ALL:
+            ts = [_oc_truth(c, v, is_rc) for c in gen.ifs]
+            tv[v] = False if any(t is False for t in ts) else \
+                None if any(t is None for t in ts) else True
+        if any(t is None for t in tv.values()):
+            raise AnalysisError('UNRECOGNISED-IDIOM %s: cannot evaluate the '
+                                'filter of `%s` for the outcomes None / 0 / '
+                                'non-zero of the probe'
+                                % (f.where, short(comp, 60)))
+        wrong = sorted(v for v in tv if tv[v] and v != _Z)
+        rep.check(not wrong and tv[_Z], rid, f, '`%s` keeps the nodes whose '
+                  'probe returned 0' % short(comp, 50),
+                  construct='probe:%s' % ('/'.join(wrong) or 'never'),
+                  message='%s builds %s with `%s`, a filter which %s: a node '
+                  'which failed the accessibility check becomes part of '
+                  'rm_info.node_list and is offered for task placement'
+                  % (f.qual, name, short(comp, 70),
+                     'also passes when the %s is %s' % (
+                         OUTCOME, ' or '.join(wrong)) if wrong else
+                     'never passes for an answering node'),
+                  loc=f.loc(comp), history='pilot with backup_nodes > 0; the '
+                  'probe of one node hangs for good (retcode None) or '
+                  'returns 255')
+    if not loops and not comps:
+        raise AnalysisError('UNRECOGNISED-IDIOM %s: no list assigned to '
+                            'node_list is filled in a loop which reads '
+                            '<proc>.%s' % (f.where, OUTCOME))
+
+
+# ------------------------------------------------------------------------------
+# R18.17   a compact host list becomes node names only through its expansion
+#
+# `nid[001-003],gpu-a3` (SLURM_NODELIST) is expanded by ru.get_hostlist.  A
+# cheaper definition of the same name sequence is equal to the expansion only
+# for strings its guards restrict accordingly: [s] needs "no ',' and no '['",
+# s.split(',') needs "no '['".
+#
+EXPAND = 'get_hostlist'
+HOSTLIST_META = (',', '[')
+
+
+def _is_expand(e, raw=None):
+    return isinstance(e, ast.Call) and \
+        call_name(e).split('.')[-1] == EXPAND and e.args and \
+        isinstance(e.args[0], ast.Name) and \
+        (raw is None or e.args[0].id == raw)
+
+
+def _absent_facts(e, pol, raw, out):
+    """adds to `out` the characters test e, having truth `pol`, proves absent
+    from the string `raw`; -> False when e looks at `raw` in a way which is
+    not understood"""
+    if raw not in names_in_expr(e):
+        return True
+    if isinstance(e, ast.Name):
+        return True                                   # emptiness
+    if isinstance(e, ast.UnaryOp) and isinstance(e.op, ast.Not):
+        return _absent_facts(e.operand, not pol, raw, out)
+    if isinstance(e, ast.BoolOp):
+        decisive = isinstance(e.op, ast.And) == pol   # all operands have `pol`
+        ok = True
+        for v in e.values:
+            ok &= _absent_facts(v, pol, raw, out if decisive else set())
+        return ok
+    if isinstance(e, ast.Compare) and len(e.ops) == 1:
+        op, l, r = e.ops[0], e.left, e.comparators[0]
+        if isinstance(op, (ast.Is, ast.IsNot, ast.Eq, ast.NotEq)) and \
+                isinstance(l, ast.Name) and isinstance(r, ast.Constant) and \
+                r.value in (None, ''):
+            return True
+        if isinstance(op, (ast.In, ast.NotIn)) and \
+                isinstance(l, ast.Constant) and isinstance(l.value, str) and \
+                isinstance(r, ast.Name) and r.id == raw:
+            if isinstance(op, ast.NotIn) == pol and len(l.value) == 1:
+                out.add(l.value)
+            return True
+    return False
+
+
+def r18_17(prog, rep, table, rid='R18.17'):
+    from ..flow import guard_atoms
+    rep.rule(rid, 'the node names of a resource manager which expands a '
+             'compact host list (ru.get_hostlist) are that expansion on every '
+             'path: a cheaper definition of the same sequence from the raw '
+             'string ([s], s.split(",")) is guarded so that the string holds '
+             'no "," / "[" which the expansion would have resolved', minimum=1)
+    n = 0
+    for key, K in sorted(table.items(), key=lambda kv: str(kv[0])):
+        f = prog.find_method(K, 'init_from_scratch')
+        if f is None or not any(_is_expand(c) for c in calls_in(f.node)):
+            continue
+        rep.saw(f)
+        g = cfg_of(f)
+        smap = I.stmt_node_map(g)
+        pairs = set()                   # (sequence variable, raw string name)
+        for a in walk(f.node):
+            if isinstance(a, ast.Assign) and _is_expand(a.value):
+                for t in a.targets:
+                    if isinstance(t, ast.Name):
+                        pairs.add((t.id, a.value.args[0].id))
+        for seq, raw in sorted(pairs):
+            for a in walk(f.node):
+                if not (isinstance(a, ast.Assign) and any(
+                        isinstance(t, ast.Name) and t.id == seq
+                        for t in a.targets)) or id(a) not in smap:
+                    continue
+                v = a.value
+                if _is_expand(v, raw):
+                    n += 1
+                    rep.ok(rid, f, '`%s` is the expansion of `%s`'
+                           % (seq, raw), f.loc(a))
+                    continue
+                if raw not in names_in_expr(v):
+                    continue
+                if isinstance(v, (ast.List, ast.Tuple)) and \
+                        len(v.elts) == 1 and \
+                        isinstance(v.elts[0], ast.Name) and \
+                        v.elts[0].id == raw:
+                    need, form = set(HOSTLIST_META), 'the one name `%s`'
+                elif isinstance(v, ast.Call) and \
+                        isinstance(v.func, ast.Attribute) and \
+                        v.func.attr == 'split' and \
+                        isinstance(v.func.value, ast.Name) and \
+                        v.func.value.id == raw and len(v.args) == 1 and \
+                        isinstance(v.args[0], ast.Constant) and \
+                        v.args[0].value == ',':
+                    need, form = {'['}, 'the pieces `%s`'
+                else:
+                    raise AnalysisError('UNRECOGNISED-IDIOM %s: `%s` derives '
+                                        'the node names from the raw host '
+                                        'list `%s`' % (f.where, short(a, 60),
+                                                       raw))
+                have, clear = set(), True
+                dn = smap[id(a)]
+                for atom, pol in guard_atoms(g, dn.id):
+                    clear &= _absent_facts(atom, pol, raw, have)
+                # a later test one side of which always re-defines the
+                # sequence: the cheap value survives on the other side only
+                others = {smap[id(b)].id for b in walk(f.node)
+                          if isinstance(b, ast.Assign) and b is not a and
+                          id(b) in smap and any(
+                              isinstance(t, ast.Name) and t.id == seq
+                              for t in b.targets)}
+                for tid in sorted(g.reachable(dn.id, skip_nodes=others)):
+                    tn = g.nodes[tid]
+                    if tn.kind != 'test' or tid in others:
+                        continue
+                    for e in g.succ[tid]:
+                        if e.label in ('T', 'F') and (
+                                e.dst in others or
+                                must_pass(g, e.dst, g.exit.id, others)):
+                            clear &= _absent_facts(tn.ast, e.label != 'T',
+                                                   raw, have)
+                missing = sorted(need - have)
+                if missing and not clear:
+                    raise AnalysisError('UNRECOGNISED-IDIOM %s: a guard of '
+                                        '`%s` looks at `%s` in a way I cannot '
+                                        'evaluate' % (f.where, short(a, 60),
+                                                      raw))
+                n += 1
+                rep.check(not missing, rid, f, '`%s` stands in for the '
+                          'expansion only for strings without %s'
+                          % (short(a, 50), ' and '.join(
+                              repr(c) for c in sorted(need))),
+                          construct='bypass:%s' % ''.join(missing),
+                          message='%s takes %s as node names without expanding'
+                          ' the host list, on a path whose guards do not '
+                          'exclude %s in `%s`: such a string is a valid '
+                          'compact node list of several hosts (`%s`), the '
+                          'pilot gets ONE node named like the whole list (or '
+                          'pieces of a range) instead of one entry per '
+                          'allocated node, or dies on `requested_nodes <= '
+                          'len(node_list)`'
+                          % (f.qual, form % short(v, 40), ' and '.join(
+                              repr(c) for c in missing), raw,
+                             'gpu-a3,gpu-b7,gpu-c1' if ',' in missing
+                             else 'nid[0010-0011,0014]'), loc=f.loc(a),
+                          history='SLURM_JOB_NODELIST=gpu-a3,gpu-b7,gpu-c1 '
+                          '(hosts enumerated without a range), pilot of 1 '
+                          'node: node_list holds one node named '
+                          "'gpu-a3,gpu-b7,gpu-c1'" if ',' in missing else
+                          'SLURM_JOB_NODELIST=nid[0010-0011,0014]: names '
+                          "'nid[0010-0011' and '0014]'")
+    if not n:
+        raise AnalysisError('UNRECOGNISED-IDIOM no resource manager assigns '
+                            'the result of ru.%s to a local' % EXPAND)
+
+
+# ------------------------------------------------------------------------------
 #
 def run(prog, rep, tier):
     rep.decided = ('every resource manager of the factory table obtains '
@@ -3960,7 +4537,15 @@ def run(prog, rep, tier):
         'searched for between two chunks; the refusal of a non-uniform '
         'allocation (raise of a helper which hands on ONE count drawn from '
         'the set of detected counts) is re-raised by every handler between '
-        'the helper and the caller of init_from_scratch.')
+        'the helper and the caller of init_from_scratch; the marking of a '
+        'blocked core / GPU does not use the variable of a loop which is '
+        'already over; a run size of itertools.groupby over unsorted '
+        'lines is never stored per name by overwrite; _filter_nodes '
+        'keeps a probed node only on paths on which <proc>.retcode is 0 '
+        '(None / 0 / non-zero explored over one iteration, wait() and '
+        'cancel() reset the outcome); node names taken from the raw '
+        'SLURM host list instead of ru.get_hostlist are guarded against '
+        '"," and "[".')
     rep.undecided = ('slot counting and name syntax of node files for '
         'arbitrary contents (which names / counts mark an LSF login or batch '
         'node, PBSPro vnodes); that the batch system allocated '
@@ -3991,6 +4576,9 @@ def run(prog, rep, tier):
     r18_3(prog, rep)
     r18_4(prog, rep, table)
     r18_5(prog, rep, table)
+    rep.attempt(r18_15, prog, rep, table)
+    rep.attempt(r18_16, prog, rep)
+    rep.attempt(r18_17, prog, rep, table)
     rep.attempt(r18_6, prog, rep)
     rep.attempt(r18_7, prog, rep, table)
     rep.attempt(r18_8, prog, rep, table)
@@ -4185,6 +4773,16 @@ _PBS_TRY = ("        try:\n"
             "            nodes = [(node, rm_info.cores_per_node) for node in vnodes]\n")
 _TRQ_CPN = "            rm_info.cores_per_node = self._get_cores_per_node(nodes)\n"
 
+_PROBE = ("                if proc.retcode is not None:\n"
+          "                    if not proc.retcode:\n"
+          "                        ok.append(node)\n"
+          "                else:\n")
+_PROBE_AGAIN = ("                    if proc.retcode is None:\n"
+                "                        self._log.warning('check node: %s [%s] timed out again',\n"
+                "                                           name, [proc.stdout, proc.stderr])\n")
+
+_SL_HOST = "        node_names = ru.get_hostlist(nodelist)\n"
+
 
 def _res_helper(take="rm_info.node_list.pop()"):
     return ("        def _reserve(reserved, n_nodes) -> None:\n"
@@ -4315,6 +4913,65 @@ MUTATIONS = [
          "            for node, slots in itertools.groupby(lines):\n"
          "                nodes.append((node, cpn or len(list(slots))))\n\n"
          "            return [(node, slots * smt) for node, slots in nodes]\n")]),
+    dict(name='R18.15 dict comprehension over groupby of the unsorted lines (seed C18-i4)', rules=('R18.15',), edits=[
+        (_B, _IMP, "import itertools\n" + _IMP),
+        (_B, _PNF, _READ +
+         "            assert not any(' ' in line for line in lines)\n"
+         "            nodes = {node: len(list(slots))\n"
+         "                     for node, slots in itertools.groupby(lines)}\n\n"
+         "            if cpn:\n"
+         "                for node in list(nodes.keys()):\n"
+         "                    nodes[node] = cpn\n\n"
+         "            return [(node, cpn * smt) for node, cpn in nodes.items()]\n")]),
+    dict(name='R18.15 run sizes stored by plain assignment in a loop over groupby', rules=('R18.15',), edits=[
+        (_B, _IMP, "import itertools\n" + _IMP),
+        (_B, _PNF, _READ +
+         "            nodes = dict()\n"
+         "            for node, slots in itertools.groupby(lines):\n"
+         "                n_slots = len(list(slots))\n"
+         "                nodes[node] = n_slots\n\n"
+         "            if cpn:\n"
+         "                for node in list(nodes.keys()):\n"
+         "                    nodes[node] = cpn\n\n"
+         "            return [(node, cpn * smt) for node, cpn in nodes.items()]\n")]),
+    dict(name='R18.15 dict() of (name, run size) pairs from groupby', rules=('R18.15',), edits=[
+        (_B, _IMP, "from itertools import groupby\n" + _IMP),
+        (_B, _PNF, _READ +
+         "            nodes = dict((name, sum(1 for _ in grp))\n"
+         "                         for name, grp in groupby(lines))\n\n"
+         "            if cpn:\n"
+         "                for node in list(nodes.keys()):\n"
+         "                    nodes[node] = cpn\n\n"
+         "            return [(node, cpn * smt) for node, cpn in nodes.items()]\n")]),
+    dict(name='R18.16 nested retcode test flattened, None counted as success (seed C18-i6)', rules=('R18.16',), edits=[
+        (_B, _PROBE, "                if proc.retcode is None:\n"),
+        (_B, _PROBE_AGAIN, _PROBE_AGAIN + "\n                if not proc.retcode:\n                    ok.append(node)\n")]),
+    dict(name='R18.16 accessible list as a comprehension which keeps every falsy return code', rules=('R18.16',), edits=[
+        (_B, _PROBE, "                if proc.retcode is not None:\n                    pass\n                else:\n"),
+        (_B, "            self._log.warning('using %d nodes out of %d', len(ok), len(procs))\n",
+             "            ok = [node for name, proc, node in procs if not proc.retcode]\n"
+             "            self._log.warning('using %d nodes out of %d', len(ok), len(procs))\n")]),
+    dict(name='R18.16 outer test of the probe outcome dropped', rules=('R18.16',), edits=[
+        (_B, _PROBE, "                if not proc.retcode:\n                    ok.append(node)\n                else:\n")]),
+    dict(name='R18.16 node kept when the probe returned anything', rules=('R18.16',), edits=[
+        (_B, _PROBE, "                if proc.retcode is not None:\n                    ok.append(node)\n                else:\n")]),
+    dict(name='R18.16 polarity of the return code test inverted', rules=('R18.16',), edits=[
+        (_B, _PROBE, "                if proc.retcode is not None:\n                    if proc.retcode:\n"
+                     "                        ok.append(node)\n                else:\n")]),
+    dict(name='R18.16 and replaced by or in the combined outcome test', rules=('R18.16',), edits=[
+        (_B, _PROBE, "                if proc.retcode is not None or not proc.retcode:\n"
+                     "                    ok.append(node)\n                if proc.retcode is None:\n")]),
+    dict(name='R18.17 Slurm: plain-host fast path guarded by the missing bracket only (seed C18-i5)', rules=('R18.17',), edits=[
+        (_SLURM, _SL_HOST, "        if '[' in nodelist:\n            node_names = ru.get_hostlist(nodelist)\n"
+                           "        else:\n            # plain host name, nothing to expand\n            node_names = [nodelist]\n")]),
+    dict(name='R18.17 Slurm: fast path splits at commas whenever there is one', rules=('R18.17',), edits=[
+        (_SLURM, _SL_HOST, "        if ',' in nodelist:\n            node_names = nodelist.split(',')\n"
+                           "        else:\n            node_names = ru.get_hostlist(nodelist)\n")]),
+    dict(name='R18.17 Slurm: single-name shortcut in early form, guard on the comma only', rules=('R18.17',), edits=[
+        (_SLURM, _SL_HOST, "        node_names = [nodelist]\n        if ',' in nodelist:\n            node_names = ru.get_hostlist(nodelist)\n")]),
+    dict(name='R18.17 Slurm: fast path guard joined with or instead of and', rules=('R18.17',), edits=[
+        (_SLURM, _SL_HOST, "        if '[' not in nodelist or ',' not in nodelist:\n            node_names = [nodelist]\n"
+                           "        else:\n            node_names = ru.get_hostlist(nodelist)\n")]),
     dict(name='R18.6 blocked resources marked on the first requested_nodes nodes only (seed C18-d)', rules=('R18.6',), edits=[
         (_B, _MARK_HEAD, "            # only the nodes we are going to use need to be touched\n"
                          "            for node in rm_info.node_list[:rm_info.requested_nodes]:\n\n                for idx in blocked_cores:\n")]),
@@ -4506,6 +5163,79 @@ SILENT = [
          "                for node in list(nodes.keys()):\n"
          "                    nodes[node] = cpn\n\n"
          "            return [(node, cpn * smt) for node, cpn in nodes.items()]\n")]),
+    dict(name='dict comprehension over groupby of the sorted lines', edits=[
+        (_B, _IMP, "import itertools\n" + _IMP),
+        (_B, _PNF, _READ +
+         "            nodes = {node: len(list(slots))\n"
+         "                     for node, slots in itertools.groupby(sorted(lines))}\n\n"
+         "            if cpn:\n"
+         "                for node in list(nodes.keys()):\n"
+         "                    nodes[node] = cpn\n\n"
+         "            return [(node, cpn * smt) for node, cpn in nodes.items()]\n")]),
+    dict(name='run sizes of groupby over the unsorted lines accumulated per name', edits=[
+        (_B, _IMP, "import itertools\n" + _IMP),
+        (_B, _PNF, _READ +
+         "            nodes = dict()\n"
+         "            for node, slots in itertools.groupby(lines):\n"
+         "                nodes[node] = nodes.get(node, 0) + len(list(slots))\n\n"
+         "            if cpn:\n"
+         "                for node in list(nodes.keys()):\n"
+         "                    nodes[node] = cpn\n\n"
+         "            return [(node, cpn * smt) for node, cpn in nodes.items()]\n")]),
+    dict(name='run sizes of groupby added with += to a defaultdict', edits=[
+        (_B, _IMP, "import collections\nimport itertools\n" + _IMP),
+        (_B, _PNF, _READ +
+         "            nodes = collections.defaultdict(int)\n"
+         "            for node, slots in itertools.groupby(lines):\n"
+         "                nodes[node] += len(list(slots))\n\n"
+         "            if cpn:\n"
+         "                for node in list(nodes.keys()):\n"
+         "                    nodes[node] = cpn\n\n"
+         "            return [(node, cpn * smt) for node, cpn in nodes.items()]\n")]),
+    dict(name='groupby used for the names only, counts from a Counter', edits=[
+        (_B, _IMP, "import collections\nimport itertools\n" + _IMP),
+        (_B, _PNF, _READ +
+         "            counts = collections.Counter(lines)\n"
+         "            nodes = {node: counts[node]\n"
+         "                     for node, _ in itertools.groupby(lines)}\n\n"
+         "            if cpn:\n"
+         "                for node in list(nodes.keys()):\n"
+         "                    nodes[node] = cpn\n\n"
+         "            return [(node, cpn * smt) for node, cpn in nodes.items()]\n")]),
+    dict(name='probe outcome: timeout branch first, ends with continue', edits=[
+        (_B, _PROBE, "                if proc.retcode is None:\n"),
+        (_B, _PROBE_AGAIN, _PROBE_AGAIN + "                    continue\n\n                if not proc.retcode:\n                    ok.append(node)\n")]),
+    dict(name='probe outcome: accessible list as a comprehension after the wait loop', edits=[
+        (_B, _PROBE, "                if proc.retcode is not None:\n                    pass\n                else:\n"),
+        (_B, "            self._log.warning('using %d nodes out of %d', len(ok), len(procs))\n",
+             "            ok = [node for name, proc, node in procs\n                       if proc.retcode is not None and not proc.retcode]\n"
+             "            self._log.warning('using %d nodes out of %d', len(ok), len(procs))\n")]),
+    dict(name='probe outcome: one combined test', edits=[
+        (_B, _PROBE, "                if proc.retcode is not None and not proc.retcode:\n"
+                     "                    ok.append(node)\n                if proc.retcode is None:\n")]),
+    dict(name='probe outcome compared with 0', edits=[
+        (_B, _PROBE, "                if proc.retcode == 0:\n"
+                     "                    ok.append(node)\n                elif proc.retcode is None:\n")]),
+    dict(name='probe outcome through a local read after the wait', edits=[
+        (_B, _PROBE, "                rc = proc.retcode\n                if rc is not None:\n                    if not rc:\n"
+                     "                        ok.append(node)\n                else:\n")]),
+    dict(name='probe outcome: node which dies on cancel re-tested after the second wait', edits=[
+        (_B, _PROBE, "                if proc.retcode is None:\n"),
+        (_B, _PROBE_AGAIN, _PROBE_AGAIN + "                        continue\n\n                if proc.retcode in (0,):\n                    ok.append(node)\n")]),
+    dict(name='Slurm: single plain host name taken as it is, both guards', edits=[
+        (_SLURM, _SL_HOST, "        if '[' in nodelist or ',' in nodelist:\n            node_names = ru.get_hostlist(nodelist)\n"
+                           "        else:\n            node_names = [nodelist]\n")]),
+    dict(name='Slurm: enumerated hosts split at the commas when there is no range', edits=[
+        (_SLURM, _SL_HOST, "        if '[' not in nodelist:\n            node_names = nodelist.split(',')\n"
+                           "        else:\n            node_names = ru.get_hostlist(nodelist)\n")]),
+    dict(name='Slurm: shortcut in early-assign form with a negated conjunction', edits=[
+        (_SLURM, _SL_HOST, "        node_names = ru.get_hostlist(nodelist)\n"
+                           "        if not (',' in nodelist or '[' in nodelist):\n            node_names = [nodelist]\n")]),
+    dict(name='Slurm: single name first, expanded afterwards when a comma or a bracket is there', edits=[
+        (_SLURM, _SL_HOST, "        node_names = [nodelist]\n        if ',' in nodelist or '[' in nodelist:\n"
+                           "            node_names = ru.get_hostlist(nodelist)\n")]),
+    dict(name='Slurm: expansion through a renamed local and a sorted copy', edits=[
+        (_SLURM, _SL_HOST, "        hosts = ru.get_hostlist(nodelist)\n        node_names = list(hosts)\n")]),
     dict(name='lines sorted before groupby', edits=[
         (_B, _IMP, "import itertools\n" + _IMP),
         (_B, _PNF, _READ +
